@@ -1,5 +1,6 @@
 import DeapModel.Core.Logbook
 import DeapModel.Core.LogbookText
+import DeapModel.Core.StatsHist
 import Driver.Proto
 /-!
 Protocol handler for C18 (Logbook and Statistics).
@@ -35,6 +36,15 @@ by name as `<name>[…]`), then `;<header>;<log_header>;<header_streamed>`.
 `stats k:<key> r:<name>:<fn>:<args> … d:<data>` and
 `multi s:<sname>:<key> … r:<target|*>:<name>:<fn>:<args> … d:<data>` compile statistics
 (tokens are applied in order; data = `;`-separated individuals, each a `,`-separated int list).
+
+`mhist <op> …` replays a history on a fresh `MultiStatistics()` (`Core/StatsHist.lean`) and answers, for every
+operation, `<observation>;<dict>` (joined by ` | `).  Objects are numbered in the order of their creation.
+Operations: `n:<key>` `Statistics(key)`; `g:<id>:<name>:<fn>:<args>` `obj.register`; `R:<name>:<fn>:<args>` `ms.register`;
+`s:<k>:<id>` `ms[k] = obj`; `x:<k>` `del ms[k]`; `u:<k>=<id>,…` `ms.update` (`u:-` empty); `i:<k>=<id>,…` `ms |= …`;
+`t:<k>:<id>` `ms.setdefault`; `p:<k>` `ms.pop(k)`; `q` `ms.popitem()`; `c` `ms.clear()`; `f` `ms.fields`;
+`F:<id>` `obj.fields`; `d:<data>` `ms.compile(data)`.
+Observation: `-` None, `!` raised, `o<id>` an object, `<k>><id>` an item, `[n,n,…]` names, `{…}` the compiled record
+(`<sname>{<name>=<value>,…}` separated by blanks, in dict order).  Dict: `<k>><id>,…` in insertion order, `e` when empty.
 -/
 namespace DriverC18
 open Proto Logbook
@@ -347,6 +357,69 @@ def handleMulti (toks : List String) : Option String := do
     | _ => failure
   out
 
+/-! ### histories over a MultiStatistics -/
+
+abbrev MSt := Stats.MS (List Int) Int (List Int) Int
+abbrev MOpI := Stats.MOp (List Int) Int (List Int) Int
+
+def parsePairs (s : String) : Option Stats.Dict :=
+  if s = "-" then some [] else
+    (s.splitOn ",").mapM fun t =>
+      match t.splitOn "=" with
+      | [k, v] => do pure ((← parseNat k), (← parseNat v))
+      | _ => none
+
+def parseMOp (t : String) : Option MOpI :=
+  match t.splitOn ":" with
+  | ["n", code] => do pure (.alloc (← keyFn code))
+  | ["g", id, name, fn, args] => do
+    pure (.regObj (← parseNat id) (← parseNat name) (← statFn fn) (← parseArgs args))
+  | ["R", name, fn, args] => do pure (.register (← parseNat name) (← statFn fn) (← parseArgs args))
+  | ["s", k, id] => do pure (.setItem (← parseNat k) (← parseNat id))
+  | ["x", k] => do pure (.delItem (← parseNat k))
+  | ["u", e] => do pure (.update (← parsePairs e))
+  | ["i", e] => do pure (.ior (← parsePairs e))
+  | ["t", k, id] => do pure (.setDefault (← parseNat k) (← parseNat id))
+  | ["p", k] => do pure (.pop (← parseNat k))
+  | ["q"] => some .popItem
+  | ["c"] => some .clear
+  | ["f"] => some .fields
+  | ["F", id] => do pure (.objFields (← parseNat id))
+  | ["d", _] => do pure (.compile (← parseData t))
+  | _ => none
+
+/-- every object id an operation mentions is on the heap (anything else has no Python counterpart) -/
+def mopOk (st : MSt) : MOpI → Bool
+  | .regObj id _ _ _ => id < st.heap.length
+  | .setItem _ id => id < st.heap.length
+  | .update e => Stats.idsOk st.heap.length e
+  | .ior e => Stats.idsOk st.heap.length e
+  | .setDefault _ id => id < st.heap.length
+  | .objFields id => id < st.heap.length
+  | _ => true
+
+def showMObs : Stats.MObs Int → String
+  | .none => "-"
+  | .raised => "!"
+  | .obj id => "o" ++ toString id
+  | .item k id => toString k ++ ">" ++ toString id
+  | .names l => "[" ++ ",".intercalate (l.map toString) ++ "]"
+  | .record r => "{" ++ " ".intercalate (r.map fun p => toString p.1 ++ "{" ++ showRec p.2 ++ "}") ++ "}"
+
+def showDict (d : Stats.Dict) : String :=
+  if d.isEmpty then "e" else ",".intercalate (d.map fun p => toString p.1 ++ ">" ++ toString p.2)
+
+def handleMHist (toks : List String) : Option String := do
+  let mut st : MSt := Stats.MS.empty
+  let mut out : List String := []
+  for t in toks do
+    let op ← parseMOp t
+    if !mopOk st op then failure
+    let r := Stats.step st op
+    st := r.1
+    out := out ++ [showMObs r.2 ++ ";" ++ showDict st.map]
+  pure (if out.isEmpty then "empty" else " | ".intercalate out)
+
 def handle : List String → String
   | "hist" :: toks => (handleHist toks).getD "bad-op"
   | "fmtval" :: toks => (handleFmt ("fmtval" :: toks)).getD "bad-op"
@@ -356,6 +429,7 @@ def handle : List String → String
   | "stats" :: toks => (handleStats toks).getD "bad-op"
   | "statst" :: toks => (handleStatsT toks).getD "bad-op"
   | "multi" :: toks => (handleMulti toks).getD "bad-op"
+  | "mhist" :: toks => (handleMHist toks).getD "bad-op"
   | _ => "bad-op"
 
 end DriverC18
